@@ -140,7 +140,7 @@ def oracle_download(case, line):
                     f[0], f[1], f[2], f[3], max(up - upb, 0), max(comp - compb, 0), left, i, op)))
             if want_ev is not None and f[0] != want_ev:
                 bad.append((None, "Download::start sent event %d instead of 'started' at op %d" % (f[0], i)))
-    return [(None, t) for _, t in bad[:1]] if bad else []
+    return bad[:1]
 
 
 def oracle_http(case, line):
@@ -181,7 +181,7 @@ def oracle_http(case, line):
                     ev, BEP15_NAME[pending], i, op)))
             inflight = ev
             queued = None           # a new request supersedes a result still waiting for the main thread
-    return [(None, t) for _, t in bad[:1]]
+    return bad[:1]
 
 
 def oracle(case, line, P):
@@ -328,6 +328,8 @@ def oracle(case, line, P):
                                 kl = "tier-skipped-while-in-flight"
                             elif atn(P, t) <= atn(P, u) and any(p["en"] and p["fc"] > 0 and p["id"] not in inflight for p in st["trs"]):
                                 kl = "tier-skipped-not-due"
+                            elif u["id"] in scraping:
+                                kl = "tier-skipped-scrape-in-flight"     # not a listed finding: a scrape must be replaced, not waited for
                             else:
                                 kl = None
                             bad.append((kl, "tier %d contacted while tier %d has a usable tracker without failure (tracker %d) at %s" % (g, group_of[u["id"]], u["id"], where)))
